@@ -73,7 +73,10 @@ TABLE = {
 
 
 def main():
-    claimed = [p for p in sorted(TABLE) if os.path.exists(os.path.join(VERIF, "hipposa", "rules", p.lower() + ".py"))]
+    with open(os.path.join(VERIF, "tools", "claimed.txt")) as f:
+        allow = set(f.read().split())
+    claimed = [p for p in sorted(TABLE) if p in allow
+               and os.path.exists(os.path.join(VERIF, "hipposa", "rules", p.lower() + ".py"))]
     na_path = os.path.join(VERIF, "tools", "not_applicable.json")
     na_fixed = json.load(open(na_path)) if os.path.exists(na_path) else {}
     checks = []
@@ -90,7 +93,7 @@ def main():
             "engine": "hipposa",
             "technique": "static analysis: " + tech,
             "level_claimed": {
-                "category": "translation_validation" if p == "C13" and False else "other",
+                "category": "translation_validation" if p == "C13" else "other",
                 "text": (f"Static analysis of /repo's current source, universally quantified over paths and table rows "
                          f"(not over runtime values). Decides these necessary structural clauses of {p}: {decided}. "
                          f"Does NOT decide: {undecided}. A violated clause provably breaks the property; a passing "
